@@ -114,6 +114,9 @@ void h_insert(void) { struct XST * s, * ins; size_t pos = VF_IN_SIZE(pos); VF_IN
 void h_insert_ch(void) { struct XST * s; size_t pos = VF_IN_SIZE(pos), len = VF_IN_SIZE(len); VF_IN_SIZE(k); S_WIT_IN(); XSN(insert_ch)(s, pos, len, (int)nondet_int()); VF_END(); }
 void h_resize(void) { struct XST * s; size_t n = VF_IN_SIZE(n); VF_IN_SIZE(k); S_WIT_IN(); XSN(resize)(s, n); VF_END(); }
 void h_substr(void) { struct XST * s, * sub; size_t pos = VF_IN_SIZE(pos), len = VF_IN_SIZE(len); S_WIT_IN(); XSN(substr)(s, pos, len, sub); VF_END(); }
+#ifdef VF_G_sswap
+void h_sswap(void) { struct XST * a, * b; XSN(swap)(a, b); VF_END(); }
+#endif
 void h_at(void) { struct XST * s; size_t pos = VF_IN_SIZE(pos); S_WIT_IN(); XSN(at)(s, pos); VF_END(); }
 void h_str(void) { struct XST * s; S_WIT_IN(); XSN(str)(s); VF_END(); }
 #else /* VF_NATIVE ------------------------------------------------------------------------
